@@ -65,13 +65,19 @@ VolatileState_Load(BYTE **buffer, INT32 *size)
     char *oldProfile = NULL;
 
     if (rc == TPM_RC_SUCCESS) {
-        if ((UINT32)*size < sizeof(hash))
+        /* every failure must set g_inFailureMode: _TPM_Init() does not look
+         * at the return value of VolatileLoad() */
+        if ((UINT32)*size < sizeof(hash)) {
+            g_inFailureMode = TRUE;
             return TPM_RC_INSUFFICIENT;
+        }
 
         rc = RuntimeAlgorithmSwitchProfile(&g_RuntimeProfile.RuntimeAlgorithm,
                                            NULL, ~0, &oldProfile);
-        if (rc != TPM_RC_SUCCESS)
+        if (rc != TPM_RC_SUCCESS) {
+            g_inFailureMode = TRUE;
             return rc;
+        }
     }
 
     if (rc == TPM_RC_SUCCESS) {
